@@ -14,6 +14,7 @@ import (
 	"os"
 	"os/exec"
 	"strings"
+	"testing/iotest"
 
 	"pault.ag/go/debian/control"
 	"pault.ag/go/debian/hashio"
@@ -61,6 +62,21 @@ func streamBytes(n int, seed int) []byte {
 		b[i] = byte((i*7 + 3 + seed) % 251)
 	}
 	return b
+}
+
+// sourceReader: the io.Reader contract allows data and io.EOF in the same call (archive/tar members do that),
+// and readers that deliver one byte at a time
+func sourceReader(vec J, stream []byte) io.Reader {
+	src, _ := vec["src"].(string)
+	switch src {
+	case "dataerr":
+		return iotest.DataErrReader(bytes.NewReader(stream))
+	case "onebyte":
+		return iotest.OneByteReader(bytes.NewReader(stream))
+	case "half":
+		return iotest.HalfReader(bytes.NewReader(stream))
+	}
+	return bytes.NewReader(stream)
 }
 
 func strList(l []interface{}) []string {
@@ -134,10 +150,10 @@ func execHashio(vec J, out *Writer) {
 			var err error
 			if single {
 				var h *hashio.Hasher
-				r, h, err = hashio.NewHasherReader(algs[0], bytes.NewReader(stream))
+				r, h, err = hashio.NewHasherReader(algs[0], sourceReader(vec, stream))
 				hs = []*hashio.Hasher{h}
 			} else {
-				r, hs, err = hashio.NewHasherReaders(algs, bytes.NewReader(stream))
+				r, hs, err = hashio.NewHasherReaders(algs, sourceReader(vec, stream))
 			}
 			if err != nil {
 				out.Put(J{"ev": vec["k"], "in": vec, "small": small, "new_ok": false, "steps": steps})
